@@ -359,6 +359,42 @@ func (p *Prog) calleeEstablishes(g *GuardSpec, call ssa.CallInstruction, depth i
 func (p *Prog) PassEdges(g *GuardSpec, fn *ssa.Function, depth int) (pass map[Edge]bool, assumed map[Edge]bool) {
 	pass = map[Edge]bool{}
 	assumed = map[Edge]bool{}
+	// classify one condition value: which outcome (true / false) is cut by assumption, which
+	// can only be taken with the guard satisfied
+	classify := func(cond ssa.Value) (cutT, cutF, passT, passF bool) {
+		if g.Assume != nil {
+			cutT, cutF = g.Assume(fn, cond)
+		}
+		if g.Local != nil {
+			passT, passF = g.Local(fn, cond)
+			if passT || passF {
+				return
+			}
+		}
+		// interprocedural: if err != nil on the error result of a guarding callee
+		if e, neq, ok := nilCheck(cond); ok && isErrorType(e.Type()) {
+			calls := errorCallsOf(e, 0)
+			if len(calls) == 0 {
+				return
+			}
+			for _, c := range calls {
+				if !p.calleeEstablishes(g, c, depth) {
+					return
+				}
+			}
+			if neq {
+				passF = true
+			} else {
+				passT = true
+			}
+		}
+		return
+	}
+	type phiIf struct {
+		b  *ssa.BasicBlock
+		ph *ssa.Phi
+	}
+	var phiIfs []phiIf
 	for _, b := range fn.Blocks {
 		if len(b.Instrs) == 0 {
 			continue
@@ -367,47 +403,73 @@ func (p *Prog) PassEdges(g *GuardSpec, fn *ssa.Function, depth int) (pass map[Ed
 		if !ok {
 			continue
 		}
-		if g.Assume != nil {
-			ct, cf := g.Assume(fn, ifi.Cond)
-			if ct {
-				assumed[Edge{b, 0}] = true
-			}
-			if cf {
-				assumed[Edge{b, 1}] = true
-			}
+		// a && b / a || b used as a value (switch case, assigned boolean) is a phi of the
+		// short-circuit constant and the last operand: decided per incoming edge below
+		cutT, cutF, passT, passF := classify(ifi.Cond)
+		if ph, isPhi := ifi.Cond.(*ssa.Phi); isPhi && ph.Block() == b && len(ph.Edges) == len(b.Preds) && !(cutT || cutF || passT || passF) {
+			// (a guard that understands the merged value as a whole, e.g. "status := false; if found
+			// { status = rec.Status }", has already answered above)
+			phiIfs = append(phiIfs, phiIf{b, ph})
+			continue
 		}
-		if g.Local != nil {
-			pt, pf := g.Local(fn, ifi.Cond)
-			if pt {
-				pass[Edge{b, 0}] = true
-			}
-			if pf {
-				pass[Edge{b, 1}] = true
-			}
-			if pt || pf {
-				continue
-			}
+		if cutT {
+			assumed[Edge{b, 0}] = true
 		}
-		// interprocedural: if err != nil on the error result of a guarding callee
-		if e, neq, ok := nilCheck(ifi.Cond); ok && isErrorType(e.Type()) {
-			calls := errorCallsOf(e, 0)
-			if len(calls) == 0 {
-				continue
-			}
-			all := true
-			for _, c := range calls {
-				if !p.calleeEstablishes(g, c, depth) {
-					all = false
-					break
+		if cutF {
+			assumed[Edge{b, 1}] = true
+		}
+		if passT {
+			pass[Edge{b, 0}] = true
+		}
+		if passF {
+			pass[Edge{b, 1}] = true
+		}
+	}
+	for _, pi := range phiIfs {
+		b := pi.b
+		anyT, anyF := false, false
+		allPassT, allPassF := true, true
+		for i, v := range pi.ph.Edges {
+			pred := b.Preds[i]
+			// incoming edge cut by assumption: ignore
+			live := false
+			for si, s := range pred.Succs {
+				if s == b && !assumed[Edge{pred, si}] {
+					live = true
 				}
 			}
-			if all {
-				if neq {
-					pass[Edge{b, 1}] = true
-				} else {
-					pass[Edge{b, 0}] = true
+			if !live {
+				continue
+			}
+			canT, canF := true, true
+			var cutT, cutF, passT, passF bool
+			if cb, isConst := constBool(v); isConst {
+				canT, canF = cb, !cb
+			} else {
+				cutT, cutF, passT, passF = classify(v)
+			}
+			if canT && !cutT {
+				anyT = true
+				if !passT {
+					allPassT = false
 				}
 			}
+			if canF && !cutF {
+				anyF = true
+				if !passF {
+					allPassF = false
+				}
+			}
+		}
+		if !anyT {
+			assumed[Edge{b, 0}] = true
+		} else if allPassT {
+			pass[Edge{b, 0}] = true
+		}
+		if !anyF {
+			assumed[Edge{b, 1}] = true
+		} else if allPassF {
+			pass[Edge{b, 1}] = true
 		}
 	}
 	return
